@@ -66,10 +66,13 @@ FrameLock(p, st, after) == /\ pc[p] = st \o "_wflock" /\ TryLock(p, "wf", st \o 
 Refused(kind) == /\ sentClose
                  /\ \/ kind = "data"  /\ "DataAfterClose" \notin Dev
                     \/ kind = "close" /\ "EchoAfterOwnClose" \notin Dev
+(* select { case <-c.closed: fail; case c.writeTimeout <- ctx: armed }: when the connection is closed but the timeoutLoop has not *)
+(* left yet BOTH cases are ready and Go picks either -- a frame may still be started on a closed connection                      *)
 FrameArm(p, st) == /\ pc[p] = st \o "_arm"
-                   /\ IF Refused(Kind(p, st)) \/ closed \/ tl # "running"
-                        THEN Goto(p, st \o "_wfunlock") /\ U(armedW) /\ ret' = (IF p \in CtxProcs THEN [ret EXCEPT ![p] = "failed"] ELSE ret)
-                        ELSE Goto(p, st \o "_hdr") /\ armedW' = (IF p \in CtxProcs THEN p ELSE "none") /\ U(ret)   \* c.writeTimeout <- ctx
+                   /\ \/ /\ Refused(Kind(p, st)) \/ closed \/ tl # "running"
+                         /\ Goto(p, st \o "_wfunlock") /\ U(armedW) /\ ret' = (IF p \in CtxProcs THEN [ret EXCEPT ![p] = "failed"] ELSE ret)
+                      \/ /\ ~Refused(Kind(p, st)) /\ tl = "running"
+                         /\ Goto(p, st \o "_hdr") /\ armedW' = (IF p \in CtxProcs THEN p ELSE "none") /\ U(ret)   \* c.writeTimeout <- ctx
                    /\ U(<<closed, closing, sentClose, lk, out, emitting, inq, pingActive, pongSig, peerDid, tl, wframe, cancelled, fired>>)
 FrameHdr(p, st) == /\ pc[p] = st \o "_hdr"
                    /\ LET kind == Kind(p, st) IN
@@ -134,12 +137,15 @@ CmForceRd(p, st, holdsRd) == /\ pc[p] = st \o "_cl2" /\ Goto(p, st \o "_clZ") /\
                              /\ IF holdsRd THEN U(lk) ELSE lk["rd"] = "free" /\ lk' = [lk EXCEPT !["rd"] = "close"]
 CmRelease(p, st, after) == /\ pc[p] = st \o "_clZ" /\ lk' = [lk EXCEPT !["cm"] = "free"] /\ Goto(p, after) /\ U(Rest)
 DoClose(p, st, after) == CmAcquire(p, st) \/ CmFlip(p, st) \/ CmForceWf(p, st) \/ CmForceRd(p, st, FALSE) \/ CmRelease(p, st, after)
+(* casClosing takes closeMu for a moment, and so does the last step of waitGoroutines *)
+BrieflyHoldsCm(x) == \/ pc[x] \in {"k_cas", "n_cas", "c_cas"}
+                     \/ pc[x] \in {"k_wg", "kl_wg", "n_wg", "nl_wg"} /\ closed /\ tl = "exited"
 DoCloseRd(p, st, after) ==
    \* TryLock(closeMu) succeeds only if nobody holds it; it also fails while somebody is inside casClosing, which takes closeMu for
    \* a moment and is one atomic step here: a process that is about to run casClosing may be the holder
    \/ /\ pc[p] = st \o "_cl0" /\ U(Rest)
       /\ \/ lk["cm"] = "free" /\ lk' = [lk EXCEPT !["cm"] = p] /\ Goto(p, st \o "_clA")
-         \/ /\ lk["cm"] # "free" \/ ("CasWindow" \in Extra /\ \E x \in Procs : pc[x] \in {"k_cas", "n_cas", "c_cas"})
+         \/ /\ lk["cm"] # "free" \/ ("CasWindow" \in Extra /\ \E x \in Procs : BrieflyHoldsCm(x))
             /\ "BlockingCloseMu" \notin Dev /\ lk' = [lk EXCEPT !["rd"] = "free"] /\ Goto(p, st \o "f_cl0")
    \/ CmFlip(p, st) \/ CmForceWf(p, st) \/ CmForceRd(p, st, TRUE) \/ CmRelease(p, st, after)
    \/ DoClose(p, st \o "f", after)
